@@ -195,20 +195,39 @@ Mut1(b) ==
   \cup UNION {{SetAt(b, i, v) : v \in Vals(b[i])} : i \in 1..Len(b)}
   \cup {DelAt(b, i) : i \in 1..Len(b)}
   \cup {InsAt(b, i, v) : i \in 1..(Len(b) + 1), v \in {0, 1, 255}}
-MutVec(ver) ==
-  LET bases == {Full(ver, p) : p \in IF ver = 5 THEN MutBase5 ELSE MutBase3} IN
-  UNION {Mut1(b) : b \in bases}
-  \cup {b1 \o b2 : b1 \in bases, b2 \in bases}
-  \cup (IF Deep THEN UNION {UNION {Mut1(m) : m \in {SetAt(b, 2, (b[2] + 1) % 128), SetAt(b, 2, (b[2] + 127) % 128)}} :
-                             b \in {x \in bases : Len(x) <= 40}}
+\* (TLC's UNION is quadratic in the number of elements: the parts below are printed with nested
+\* quantifiers instead of being collected into one set first)
+MutBases(ver) == {Full(ver, p) : p \in IF ver = 5 THEN MutBase5 ELSE MutBase3}
+RLMut(b) == {SetAt(b, 2, (b[2] + 1) % 128), SetAt(b, 2, (b[2] + 127) % 128)}
+EmitB(ver, b) == PrintT(<<"VEC", ToJson([ver |-> ver, b |-> b])>>)
+\* variable byte integers in every position (Remaining Length, property length, subscription
+\* identifier) in non-minimal, over-long (5 and 6 bytes) and extreme forms
+VarForms(x) == {<<x + 128, 0>>, <<x + 128, 128, 0>>, <<x + 128, 128, 128, 0>>, <<x + 128, 128, 128, 128, 0>>,
+                <<x + 128, 128, 128, 128, 128, 0>>, <<255, 255, 255, 127>>, <<255, 255, 255, 255, 15>>,
+                <<255, 255, 255, 255, 127>>, <<128, 128, 128, 128>>, <<255, 255, 255, 255>>}
+VarVecs(ver) ==
+  UNION {{<<b[1]>> \o f \o SubSeq(b, 3, Len(b)) : f \in VarForms(b[2])} : b \in {x \in MutBases(ver) : x[2] < 128}}
+  \cup (IF ver = 5
+        THEN {<<48>> \o VarEnc(5 + Len(f) + 3) \o <<0, 3, 97, 47, 98>> \o f \o <<0, 1, 2>> : f \in VarForms(0)}
+             \cup {<<50>> \o VarEnc(7 + Len(f) + 2) \o <<0, 3, 97, 47, 98, 0, 9>> \o <<Len(f) + 1, 11>> \o f \o <<0, 1>> : f \in VarForms(5)}
+             \cup {<<64>> \o VarEnc(3 + Len(f)) \o <<0, 1, 0>> \o f : f \in VarForms(0)}
+             \cup {<<130>> \o VarEnc(2 + Len(f) + 6) \o <<0, 1>> \o f \o <<0, 3, 97, 47, 98, 0>> : f \in VarForms(0)}
+             \cup {<<224>> \o VarEnc(1 + Len(f)) \o <<0>> \o f : f \in VarForms(0)}
+             \cup {<<32>> \o VarEnc(2 + Len(f)) \o <<0, 0>> \o f : f \in VarForms(0)}
         ELSE {})
+EmitMut(ver) ==
+  /\ \A b \in VarVecs(ver) : EmitB(ver, b)
+  /\ \A b \in MutBases(ver) : \A m \in Mut1(b) : EmitB(ver, m)
+  /\ \A b1 \in MutBases(ver) : \A b2 \in MutBases(ver) : EmitB(ver, b1 \o b2)
+  /\ Deep => \A b \in {x \in MutBases(ver) : Len(x) <= 40} : \A r \in RLMut(b) : \A m \in Mut1(r) : EmitB(ver, m)
 
 \* -- short byte strings over an alphabet of packet type bytes and small numbers
 Alpha == {0, 1, 2, 3, 16, 32, 48, 50, 52, 54, 64, 98, 112, 127, 128, 130, 144, 162, 176, 192, 208, 224, 240, 255}
 AlphaQ == {0, 1, 2, 4, 16, 32, 48, 50, 54, 64, 98, 130, 192, 224, 240, 128, 255}
-RECURSIVE Strs(_, _)
-Strs(A, n) == IF n = 0 THEN {<< >>} ELSE {<<a>> \o s : a \in A, s \in Strs(A, n - 1)}
-ShortVec == IF Deep THEN UNION {Strs(Alpha, n) : n \in 1..4} ELSE UNION {Strs(AlphaQ, n) : n \in 1..3}
+EmitShort(dummy) ==   \* (a parameter keeps TLC from evaluating this when it processes constant definitions)
+  LET A == IF Deep THEN Alpha ELSE AlphaQ
+      N == IF Deep THEN 4 ELSE 3 IN
+  \A n \in 1..N : \A f \in [1..n -> A] : PrintT(<<"VEC", ToJson([b |-> [k \in 1..n |-> f[k]]])>>)
 
 \* -- outbound limits (C09)
 LimPk ==
@@ -257,12 +276,19 @@ Marks(segs, off) ==
            h == Len(s.b) IN
        {off + 1, off + 2, off + h - 1, off + h, off + h + 1, off + h + s.pay - 1} \cup Marks(Tail(segs), off + h + s.pay)
 
-Emit ==
+\* -- connection level: a PUBLISH whose payload is written in pieces, read by a handler at some pace
+ConnSizes == IF Deep THEN {0, 1, 5, 1023, 1024, 1025, 32767, 32768, 32769, 70000, 307200} ELSE {0, 5, 1025, 32769, 70000}
+ConnRuns ==
+  {[ver |-> ver, q |-> q, size |-> n, send |-> sd, piece |-> pc, read |-> rd, pace |-> pa, minc |-> mc, buf |-> bf] :
+     ver \in {3, 5}, q \in {0, 1}, n \in ConnSizes, sd \in {0, 1, 100000}, pc \in {7, 1000, 16384, 400000},
+     rd \in {"all", "chunks"}, pa \in {"eager", "lazy", "abandon"}, mc \in {0, 4, 1024, 32768}, bf \in {1024, 32768}}
+
+Emit(dummy) ==
   CASE Part = "pk5" -> \A p \in Univ5 : EmitPk(5, p)
     [] Part = "pk3" -> \A p \in Univ3 : EmitPk(3, p)
-    [] Part = "mut5" -> \A b \in MutVec(5) : PrintT(<<"VEC", ToJson([ver |-> 5, b |-> b])>>)
-    [] Part = "mut3" -> \A b \in MutVec(3) : PrintT(<<"VEC", ToJson([ver |-> 3, b |-> b])>>)
-    [] Part = "short" -> \A b \in ShortVec : PrintT(<<"VEC", ToJson([b |-> b])>>)
+    [] Part = "mut5" -> EmitMut(5)
+    [] Part = "mut3" -> EmitMut(3)
+    [] Part = "short" -> EmitShort(0)
     [] Part = "lim" -> \A p \in {x \in LimPk : LimOk(x)} :
                          PrintT(<<"VEC", ToJson([ver |-> 5, p |-> p, pay |-> Pay(p), lims |-> SortSet(Limits)])>>)
     [] Part = "stream" -> \A s \in Streams :
@@ -270,12 +296,13 @@ Emit ==
                                                     marks |-> SortSet({m \in Marks(s.segs, 0) : m > 0 /\ m < TotalLen(s.segs)})])>>)
     [] Part = "frag" -> \A s \in ShortStreams : \A C \in SUBSET (1..(TotalLen(s.segs) - 1)) :
                             PrintT(<<"VEC", ToJson([ver |-> s.ver, segs |-> s.segs, cuts |-> SortSet(C)])>>)
+    [] Part = "conn" -> \A r \in {x \in ConnRuns : x.size > 0 \/ (x.send = 0 /\ x.piece = 7)} :
+                          (r.size \div r.piece <= 300) => PrintT(<<"VEC", ToJson(r)>>)
     [] OTHER -> FALSE
 
-ASSUME Emit
-
+\* printed from the next-state action, i.e. by a worker thread (deep recursion needs its stack)
 VARIABLE done
-Init == done = TRUE
-Next == UNCHANGED done
+Init == done = FALSE
+Next == ~done /\ done' = TRUE /\ Emit(0)
 Spec == Init /\ [][Next]_done
 =============================================================================
